@@ -3,6 +3,7 @@ package main
 import (
 	"fmt"
 	"go/constant"
+	"go/token"
 	"sort"
 	"strings"
 
@@ -306,4 +307,115 @@ func runCliGate(p *Program, r *RuleResult) {
 		}
 		r.add(fnName(mainFn), "main-does-not-start-processes-itself", v, p.pos(mainFn.Pos()), "")
 	}
+}
+
+// R-TYPECHECKED-FLAG (C18, C09): the interpreter is told "this program was typechecked"
+// only on paths on which it was.
+func init() {
+	register(&Rule{Name: "R-TYPECHECKED-FLAG", Min: 3,
+		Doc: "in every driver outside package process, each store into RuntimeEnvironment.Typechecked of a value that can be true is reached, on every path consistent with that value being true (branches on the same value take their true edge, constant branches their constant edge), only after the call of process.Typecheck: the interpreter reads types off the names when the flag is set, and an unchecked name has none (nil dereference in the forward rule)",
+		Run: runTypecheckedFlag})
+}
+
+func runTypecheckedFlag(p *Program, r *RuleResult) {
+	tc := p.Func(processPkg, "Typecheck")
+	reT := p.Named(processPkg, "RuntimeEnvironment")
+	n := 0
+	for _, fn := range p.SrcFuncs {
+		pk := fn.Pkg
+		if pk == nil && fn.Parent() != nil {
+			pk = fn.Parent().Pkg
+		}
+		if pk == nil || pk.Pkg.Path() == processPkg {
+			continue
+		}
+		view := p.View(fn)
+		ord := 0
+		for _, b := range view.Blocks() {
+			for _, in := range view.Instrs(b) {
+				st, ok := in.(*ssa.Store)
+				if !ok {
+					continue
+				}
+				fa, ok := st.Addr.(*ssa.FieldAddr)
+				if !ok || !isNamed(fa.X.Type(), processPkg, reT.Obj().Name()) {
+					continue
+				}
+				if _, fname, _ := fieldNameOf(fa); fname != "Typechecked" {
+					continue
+				}
+				n++
+				ord++
+				construct := fmt.Sprintf("typechecked-flag#%d", ord)
+				v := st.Val
+				if k, isC := v.(*ssa.Const); isC && k.Value != nil && k.Value.Kind() == constant.Bool && !constant.BoolVal(k.Value) {
+					r.add(fnName(fn), construct, Holds, p.instrPos(st), "the flag is constantly false")
+					continue
+				}
+				// a path entry -> store, consistent with v being true, that avoids Typecheck
+				seen := map[*ssa.BasicBlock]bool{}
+				
+				var walk func(b *ssa.BasicBlock) bool
+				walk = func(b *ssa.BasicBlock) bool {
+					if seen[b] {
+						return false
+					}
+					seen[b] = true
+					ins := view.Instrs(b)
+					for _, x := range ins {
+						if x == ssa.Instruction(st) {
+							return true
+						}
+						if c, ok := x.(*ssa.Call); ok && c.Common().StaticCallee() == tc {
+							return false
+						}
+					}
+					succs := view.Succs(b)
+					if len(ins) > 0 {
+						if iff, ok := ins[len(ins)-1].(*ssa.If); ok && len(b.Succs) == 2 {
+							if k, isC := iff.Cond.(*ssa.Const); isC && k.Value != nil && k.Value.Kind() == constant.Bool {
+								if constant.BoolVal(k.Value) {
+									succs = []*ssa.BasicBlock{b.Succs[0]}
+								} else {
+									succs = []*ssa.BasicBlock{b.Succs[1]}
+								}
+							} else if origin(iff.Cond) == origin(v) {
+								succs = []*ssa.BasicBlock{b.Succs[0]}
+							} else if un, ok := iff.Cond.(*ssa.UnOp); ok && un.Op == token.NOT && origin(un.X) == origin(v) {
+								succs = []*ssa.BasicBlock{b.Succs[1]}
+							}
+						}
+					}
+					for _, s := range succs {
+						// the stored value is a phi of s: coming in over an edge that carries
+						// the constant false, the value is not true on this path
+						if ph, isPhi := v.(*ssa.Phi); isPhi && ph.Block() == s {
+							skip := false
+							for i, pr := range s.Preds {
+								if pr == b {
+									if k, isC := ph.Edges[i].(*ssa.Const); isC && k.Value != nil && k.Value.Kind() == constant.Bool && !constant.BoolVal(k.Value) {
+										skip = true
+									}
+								}
+							}
+							if skip {
+								continue
+							}
+						}
+						if walk(s) {
+							return true
+						}
+					}
+					return false
+				}
+				if len(fn.Blocks) > 0 && walk(fn.Blocks[0]) {
+					r.add(fnName(fn), construct, Violated, p.instrPos(st),
+						fmt.Sprintf("the flag is set to %s, and a path on which that is true reaches this store without calling process.Typecheck: the interpreter then trusts types nobody assigned", displayKey(v)))
+				} else {
+					r.add(fnName(fn), construct, Holds, p.instrPos(st), "every path on which the stored value is true has called process.Typecheck")
+				}
+			}
+		}
+	}
+	r.count("stores into Typechecked outside package process", n)
 }
